@@ -44,13 +44,13 @@ var (
 // STOP.
 func lcFactoryCode() []byte {
 	a := opvm.NewAsm()
-	a.Push(64).Op(0x36, 0x03)              // CALLDATASIZE - 64            [size]
-	a.Op(0x80).Push(64).Push(0).Op(0x37)   // CALLDATACOPY(0, 64, size)    [size]
-	a.Push(32).Op(0x35)                    // salt                         [size, salt]
-	a.Op(0x90).Push(0).Op(0x34)            // SWAP1; offset 0; CALLVALUE   [salt, size, 0, value]
-	a.Op(0xf5)                             // CREATE2                      [addr]
-	a.Push(0).Op(0x52)                     // MSTORE(0, addr)
-	a.Push(32).Push(0).Op(0xa0)            // LOG0(0, 32)
+	a.Push(64).Op(0x36, 0x03)                    // CALLDATASIZE - 64            [size]
+	a.Op(0x80).Push(64).Push(0).Op(0x37)         // CALLDATACOPY(0, 64, size)    [size]
+	a.Push(32).Op(0x35)                          // salt                         [size, salt]
+	a.Op(0x90).Push(0).Op(0x34)                  // SWAP1; offset 0; CALLVALUE   [salt, size, 0, value]
+	a.Op(0xf5)                                   // CREATE2                      [addr]
+	a.Push(0).Op(0x52)                           // MSTORE(0, addr)
+	a.Push(32).Push(0).Op(0xa0)                  // LOG0(0, 32)
 	a.Push(0).Op(0x35).PushLabel("rev").Op(0x57) // flag != 0 -> revert
 	a.Op(0x00)
 	a.Label("rev").Push(0).Push(0).Op(0xfd)
